@@ -586,6 +586,10 @@ def _elem_of_sort(t):
     nm = t.sort().name() if hasattr(t.sort(), "name") else ""
     if "Row" in str(t.sort()):
         return "row"
+    if "KV" in str(t.sort()):
+        return "kv"
+    if "JDict" in str(t.sort()):
+        return "jdict"
     if "LastPair" in str(t.sort()):
         return "lastpair"
     if t.sort() == SeqSeqR:
